@@ -767,7 +767,7 @@ def _model_op(op, vcur):
         except Exception:  # noqa: BLE001
             a = vcur.array
         flat = [_frac_str(x) for x in a.reshape(-1)] if a.dtype.kind == 'f' else [int(x) for x in a.reshape(-1)]
-        return {'op': 'with_array', 'shape': list(a.shape), 'arr': flat}
+        return {'op': 'with_array', 'shape': list(a.shape), 'arr': flat, 'isint': a.dtype.kind != 'f'}
     if op['op'] == 'get_channel':
         return {'op': 'get_channel', 'sel': [[int(d), vi] for d, vi in sorted(op['sel'].items(), key=lambda t: int(t[0]))],
                 'keepdims': op['keepdims']}
@@ -920,8 +920,10 @@ def run_history(ctx, spec, length, r, reqs, pending):
     aff = [[_fr(spec['lin'][i][j]) for j in range(3)] + [_fr(spec['pos'][i])] for i in range(3)]
     o0 = observe(v0)
     reqs.append(('history', {'affine': aff, 'shape': o0['shape'], 'arr': o0['arr'], 'isint': o0['isint'],
-                             'coord': spec['coord'], 'ops': model_ops}))
-    pending.append({'spec_idx': spec['idx'], 'exact': exact, 'obs': impl_obs})
+                             'coord': spec['coord'], 'chan_ids': [DESC_IDS[c['desc']] for c in spec['channels']],
+                             'ops': model_ops}))
+    pending.append({'spec_idx': spec['idx'], 'exact': exact, 'obs': impl_obs,
+                    'chan_values': {name: vals for name, vals in o0['channels']}})
 
 
 def _history_check(ctx, case, base, v, exact, site):
@@ -977,6 +979,7 @@ def compare_history(ctx, pend, ans):
     for obs, m in zip(pend['obs'], steps):
         case = obs['case']
         op = case['op']
+        ctx.hist('model_steps', 'refused' if 'err' in obs else 'accepted')
         if 'err' in obs:
             if 'err' not in m:
                 ctx.disagree('L0', case, {'err': obs['err']}, {'ok': {k: m['ok'][k] for k in ('shape',)}}, 'ok-vs-error')
@@ -1004,8 +1007,10 @@ def compare_history(ctx, pend, ans):
                          {'model': ma[k] if k is not None else len(ma)}, 'array')
             return
         mch = [[name, vals] for name, vals in mo['channels']]
-        ich = [[DESC_IDS.get(name, -1), vals] for name, vals in io['channels']]
-        if [c[0] for c in mch] != [c[0] for c in ich] or [len(c[1]) for c in mch] != [len(c[1]) for c in ich]:
+        cv = pend['chan_values']
+        ich = [[DESC_IDS.get(name, -1), [cv[name].index(x) if x in cv.get(name, []) else -1 for x in vals]]
+               for name, vals in io['channels']]
+        if mch != ich:
             ctx.disagree('L0', case, ich, mch, 'channel descriptors')
             return
         if io['isint'] != mo['isint']:
